@@ -12,6 +12,7 @@ func init() {
 			"GUARD: colors/resetColor/containerColors only under opts.color; container under opts.container; RFC3339Nano(time.Unix(0, T)) under opts.timestamp",
 			"PV-FIRST: colour chosen on first sighting only; ERR-PROP: other result kinds are errors; MO: no map order reaches the writer",
 			"the engine keeps every entry of a stream (groupEntries) and frames of any size are read whole (decoder rules): what the renderer prints is every returned record",
+			"PV-WHOLE: every successful evaluation returns a typed response (an empty result prints nothing, it does not fail); the merge yields only records the containers produced",
 		},
 		NotDecided: []string{"terminal behaviour", "isatty / NO_COLOR detection"},
 		Rules: func(r *Run) {
